@@ -187,7 +187,7 @@ var C04 = register(&HistProp{ID: "C04",
 		return sim.DrawGenesis(t, sim.GenOpts{UpperPairGen: true, MixedDenom: true})
 	},
 	Next: func(g *sim.G, i int) *sim.Op {
-		return Mix{Recv: 12, Replay: 2, Send: 2, Dep: 3, Replace: 1, RepDep: 1, Admin: 4, Ledger: 2, Multi: 1,
+		return Mix{Recv: 12, Replay: 2, Send: 2, Dep: 3, Replace: 1, RepDep: 1, Admin: 4, Ledger: 2, Multi: 1, Restart: 3,
 			RecvBroken: 25, DepValid: 80, ReplaceValid: 80, AdminHolder: 85, FaultPct: 4, AdminTypes: allAdmin}.next(g)
 	},
 	MinOps: 3, MaxOps: 30, New: func() Checker { return &c04{} },
@@ -404,7 +404,7 @@ var C05 = register(&HistProp{ID: "C05",
 	},
 	Next: func(g *sim.G, i int) *sim.Op {
 		g.NoForge = true
-		return Mix{Dep: 12, Send: 3, Replace: 2, RepDep: 4, Recv: 2, Admin: 3, Ledger: 2, Multi: 1,
+		return Mix{Dep: 12, Send: 3, Replace: 2, RepDep: 4, Recv: 2, Admin: 3, Ledger: 2, Multi: 1, Restart: 2,
 			RecvBroken: 20, DepValid: 75, ReplaceValid: 85, AdminHolder: 85, FaultPct: 5, AdminTypes: allAdmin}.next(g)
 	},
 	MinOps: 4, MaxOps: 30, New: func() Checker { return &c05{} },
@@ -731,7 +731,7 @@ func (c *c09) Summary(w *sim.World) (string, []string) {
 }
 
 var C09 = register(&HistProp{ID: "C09",
-	Genesis: func(t *rapid.T) *sim.GenSpec { return sim.DrawGenesis(t, sim.GenOpts{BigBalances: true}) },
+	Genesis: func(t *rapid.T) *sim.GenSpec { return sim.DrawGenesis(t, sim.GenOpts{BigBalances: true, Decoys: true}) },
 	Next: func(g *sim.G, i int) *sim.Op {
 		return Mix{Send: 5, Dep: 5, Replace: 7, RepDep: 7, Admin: 4, DepValid: 92, ReplaceValid: 50, AdminHolder: 90,
 			AdminTypes: []string{"PauseBurningAndMinting", "UnpauseBurningAndMinting", "UnpauseBurningAndMinting", "PauseSendingAndReceivingMessages", "UnpauseSendingAndReceivingMessages", "UnpauseSendingAndReceivingMessages",
